@@ -400,11 +400,14 @@ Theorem c06_selection_spec :
   (forall addr deltas,
      let sel := take_applicable addr (sort_cfi deltas) in
      Permutation sel (filter (at_or_below addr) deltas) /\ StronglySorted addr_le sel /\
-     (forall d, In d sel <-> In d deltas /\ fst d <= addr)) /\
+     (forall d, In d sel <-> In d deltas /\ fst d <= addr) /\
+     (* records with the same address: in byte-lexicographic order of their rule text (derived Ord of CfiRules) *)
+     StronglySorted rules_le sel) /\
+  (forall a b, rules_le a b <-> fst a < fst b \/ (fst a = fst b /\ bytes_ltb (snd b) (snd a) = false)) /\
   (forall r addr,
      cfi_covers r addr = true <->
      c_size r <> 0 /\ fst (c_init r) + c_size r < 2 ^ 64 /\ fst (c_init r) <= addr < fst (c_init r) + c_size r).
-Proof. exact (conj selection_spec cfi_covers_spec). Qed.
+Proof. exact selection_spec_full. Qed.
 Print Assumptions c06_selection_spec.
 
 Example c06_nonvacuous_selection :
@@ -413,3 +416,10 @@ Example c06_nonvacuous_selection :
   cfi_covers (mkCfi (18446744073709551600, bs ".cfa: 1 .ra: 2") 15 []) 18446744073709551614 = true /\
   cfi_covers (mkCfi (18446744073709551600, bs ".cfa: 1 .ra: 2") 16 []) 18446744073709551614 = false.
 Proof. vm_compute. repeat split; reflexivity. Qed.
+
+(* the constants of Driver.post_real (frame hand-over after the walk) are those of the unwinders *)
+Theorem c06_post_real_consts_pinned :
+  x86_ip_cutoff = 4096 /\ amd64_ip_cutoff = 4096 /\ arm64_ip_cutoff = 4096 /\ arm64_apple_bits = 47 /\
+  x86_sp_stop_le = true /\ amd64_sp_stop_le = true.
+Proof. exact post_real_consts_pinned. Qed.
+Print Assumptions c06_post_real_consts_pinned.
